@@ -44,7 +44,7 @@ def run(ctx):
     res = common.Result()
     rng = ctx["rng"]
     dds = common.import_dds()
-    from dds.structures_utils import FunctionInteractionsUtils as FIU
+    from dds.structures_utils import FunctionInteractionsUtils as FIU, DDSPathUtils as DPU
     from dds.structures import DDSException, DDSErrorCode
     thorough = ctx["tier"] == "thorough"
     # ---------------- unit level ----------------
@@ -76,7 +76,14 @@ def run(ctx):
     impl = []
     for l in cases:
         try:
-            r = FIU.non_terminal_leaves([pstr(p) for p in l], None)
+            # (every path goes through DDSPathUtils.create, as in the library; every third list is spelled with repeated and
+            # trailing separators: one path, one spelling afterwards)
+            if len(impl) % 3 == 2:
+                raw = ["/" + "".join(seg + rng.choice(["/", "//", "///"]) for seg in p[:-1]) + (p[-1] if p else "") + rng.choice(["", "/", "//"]) for p in l]
+                raw = [("/" if rng.random() < 0.3 else "") + x for x in raw]
+            else:
+                raw = [pstr(p) for p in l]
+            r = FIU.non_terminal_leaves([DPU.create(x) for x in raw], None)
             r = [x.split("/")[1:] for x in r]
         except BaseException as e:
             r = "EXC:" + type(e).__name__
